@@ -49,6 +49,9 @@ def run(ctx: Ctx, rep: Report) -> None:
     radix(ctx, rep)
     template(ctx, rep)
     eff(ctx, rep)
+    # single-qudit retargeting (ZXZXZ) spells the same rotation two ways
+    from ..rules.branchsib import rule_altspell
+    rule_altspell(ctx, rep, 'bqskit/passes/', 3)
 
 
 # ---------------------------------------------------------------------------
